@@ -22,6 +22,9 @@ import surf_common as S
 
 LEVEL = "model_checking"
 DRIVERS = S.DRIVERS
+META = {"text": "Energy.tla states the power model of the host and link energy plugins and Timeline.tla integrates it exactly over the reference timeline; TLC runs every generated scenario (pstate changes, off/on switches, multi-threaded execs, random integer power profiles, comms on links with a power range), checks that energy never decreases together with the timeline invariants, and the energies reported by sg_host_get_consumed_energy / sg_link_get_consumed_energy at every scripted date must equal the exact rationals (1e-9) and never decrease.",
+        "note": "Trusted: TLC, the driver, exact rendering of dyadic numbers. Not covered: speed profiles combined with energy, suspended executions, link energy when the load of a link changes at a date where no communication crossing it starts or ends (the plugin updates a link only at those dates), links with latency.",
+        "technique": "TLC runs the reference timeline with energy integration and invariants (M+G) + replay on the real plugins (surf_driver) + exact rational/double comparison"}
 NETCFG = ["--cfg=network/model:CM02", "--cfg=network/TCP-gamma:0", "--cfg=network/crosstraffic:0"]
 G = F(1, 8)
 
@@ -107,7 +110,7 @@ def mismatches(sc, obs, fin, recs):
 
 def run(ctx):
     import os
-    n = 150 if ctx.quick else 3000
+    n = 150 if ctx.quick else 1500
     if os.environ.get("SURF_DEV_N"):
         n = int(os.environ["SURF_DEV_N"])
     scens = [gen_scenario(ctx.rng) for _ in range(n)]
